@@ -1,7 +1,7 @@
 /-
   SSJ.Model.Profiler — profiler/profiler.py: counts, percentages, formatted statistics, comments
 -/
-import SSJ.Model.Basic
+import SSJ.Model.Frame
 
 namespace SSJ.Profiler
 open SSJ
@@ -40,5 +40,18 @@ def profileColumn (col : List Cell) : String × String × String :=
   let fu := formatStatistic u (percent u n)
   let fm := formatStatistic m (percent m n)
   (fu, fm, comment u m n fm)
+
+/-- `profile_table_for_join(input_table, profile_attrs)`: one row (attribute, unique stat, missing stat, comments) per
+    profiled attribute, in request order (all columns when `profile_attrs` is None); a non-DataFrame raises TypeError,
+    an unknown attribute AssertionError, an empty table ZeroDivisionError (`float(k) / float(0)`) -/
+def profileTable (t : Option Frame) (attrs : Option (List String)) : Except PyErr (List (String × String × String × String)) := do
+  let f ← validateInputTable t
+  let use ← match attrs with
+    | none => pure f.columns
+    | some l => do
+        l.forM (fun a => validateAttr a f)
+        pure l
+  if f.rows.length = 0 && !use.isEmpty then throw PyErr.zeroDiv
+  return use.map (fun a => let p := profileColumn (f.col a); (a, p.1, p.2.1, p.2.2))
 
 end SSJ.Profiler
